@@ -1,0 +1,42 @@
+//go:build verif
+
+// Contracts (machine-checked by /verif/engine, see /verif/DESIGN.md). Comment-only file.
+package future
+
+// ---- C42: futures complete once, callbacks exactly once ---------------------------------------------
+// All state of a Future is touched only while holding its mutex exclusively; the decision "completed or not" and the
+// action taken on it (run the callback now / queue it; set the value and run the queue / do nothing) happen in the SAME
+// critical section, which is what makes each callback run exactly once for every interleaving.
+//@ guarded_by Future.mu : value, callback, completed
+
+//@ func (*Future[T]).ThenAccept
+//@   props C42
+//@   at-call dyn.* as now: assert [run-now-only-if-completed] f.completed && arg0 == f.value && held(f.mu) == wlocked
+//@   at-store callback: assert [queued-only-if-pending] !f.completed && held(f.mu) == wlocked && !called(now)
+//@   at-call append as app: assert !f.completed && arg0 == f.callback
+//@   ensures [now-xor-queued] called(now) != called(app)
+//@   ensures [returns-self] result == f
+
+//@ func (*Future[T]).Complete
+//@   props C42
+//@   at-store value: assert [first-completion-wins] !f.completed && held(f.mu) == wlocked
+//@   at-store completed: assert [completed-with-value] value && !f.completed && held(f.mu) == wlocked
+//@   at-call dyn.* as cb: assert [callbacks-under-lock-after-completion] f.completed && arg0 == value && held(f.mu) == wlocked
+//@   loop 1: invariant f.completed && held(f.mu) == wlocked && rangeindex >= -1 && rangeindex < len(f.callback)
+//@   ensures [returns-self] result == f
+
+// Chaining: out completes with the value of the inner future, after f completed.
+//@ func ThenCompose
+//@   props C42
+//@   at-call New as out
+//@   at-call ThenAccept as ta: assert arg0 == f
+//@   ensures [registered] called(ta) && called(out)
+//@ func ThenCompose$1
+//@   props C42
+//@   at-call dyn.callback as inner: assert arg0 == value
+//@   at-call ThenAccept as ta: assert arg0 == res(inner)
+//@   ensures [inner-chained] called(inner) && called(ta)
+//@ func ThenCompose$1$1
+//@   props C42
+//@   at-call Complete as done: assert arg0 == out && arg1 == value
+//@   ensures [out-completed-with-inner-value] called(done)
